@@ -132,6 +132,16 @@ func addDecimals(receiver object.Object, objType object.ObjectType, args ...obje
 		decimals = int(decimalArg.Value)
 	}
 
+	// a negative number of decimals adds nothing
+	if decimals < 0 {
+		decimals = 0
+	}
+
+	if decimals > maxResultLen {
+		msg := fmt.Sprintf(fail.ErrFuncResultTooLarge, "decimal", objType)
+		return nil, errors.New(msg)
+	}
+
 	zeros := strings.Repeat("0", decimals)
 
 	if decimals == 0 {
